@@ -57,7 +57,7 @@ TTerm ==
   /\ LET s == Ev.step IN
      /\ s \in Steps /\ ~done[s]
      /\ \/ RoundStep(s) \/ Scatter(s) \/ GatherRecv(s, 1) \/ GatherRecv(s, 2)
-        \/ (\E i \in 1..Len(In[s]) : DotRecv(s, i) \/ CartRecv(s, i)) \/ ExecRound(s) \/ ExecEnd(s)
+        \/ (\E i \in 1..Len(In[s]) : DotRecv(s, i) \/ CartRecv(s, i)) \/ ExecRound(s) \/ ExecPair(s) \/ ExecEnd(s)
      /\ done'[s] /\ status'[s] = Ev.st
   /\ Consume(1) /\ UNCHANGED <<pc, xcancel>>
 
